@@ -1487,7 +1487,7 @@ def main(ck):
         "far tail": "conditioning quantiles >= 0.999 fail on the unchanged code (known findings) in exactly two ways: sample = "
         "conditional truncated at the search's x_max; nothing accepted with the search's x_max below the conditional's mass. "
         "Any other failure there is reported",
-        "IFORM random_state": "iform_seeded_reproducible is rfl on an abstract 2-step model; that the code hands the model's "
+        "IFORM random_state": "iform_seeded_reproducible_trivial is rfl on an abstract 2-step model; that the code hands the model's "
         "random_state (0, int, Generator) to every Monte-Carlo step is observed (recorders) per run",
         "TransformedModel.fit / 3-D IFORM": "fit: correspondence only (transform(data) reaches the base model); a 3-D IFORM of a "
         "TransformedModel is outside the quantifier and not checked (its step for dimension 1 reads an uninitialised column)",
